@@ -17,7 +17,10 @@ ObsOK(a, o, e) ==
   /\ o.finite
   /\ o.count = a.n /\ o.mn = a.mn /\ o.mx = a.mx
   /\ Near(o.meanq, e.q, MeanR(a), e.tolmean)
-  /\ Near(o.varq, e.q, <<A(a), e.nsamps * a.n>>, e.tolvar)        \* var = M2 / declared nsamps
+  (* variance: over the WHOLE declared stream it is M2/n.  While the stream is still being fed (a.n < declared nsamps) C10 does
+     not say which count normalises the running value: the declared length (the pinned implementation) or the samples so far *)
+  /\ \/ Near(o.varq, e.q, <<A(a), e.nsamps * a.n>>, e.tolvar)
+     \/ (a.n # e.nsamps /\ Near(o.varq, e.q, <<A(a), a.n * a.n>>, e.tolvar))
   /\ (A(a) = 0 => (o.varq = 0 /\ o.skewq = 0))                       \* constant channel: zero variance and skewness
   /\ (e.full /\ A(a) > 0 /\ e.nsamps = a.n) =>
         /\ Abs(o.skewq - SkewQ64(a)) <= e.tolskew + Abs(SkewQ64(a)) \div 16
